@@ -17,14 +17,20 @@ EXTENDS CMap, Json
 
 CONSTANTS Lens, NCodes, MaxDefs, Dev_h34, Dev_h35, Emit, KnownClasses, BaseVal, Rich,
           Styles,          \* the styles (CMap!Program) explored as a dimension: every state carries one, chosen in Init
-          Dev_gram,        \* grammar and font-dictionary switches g2..g7, f1 (TRUE = as the code is)
+          Dev_gram,        \* grammar and font-dictionary switches: GramAsIs or GramRepaired
           SingleRangeStr   \* allow bfrange lo = hi with a string target (so that NCodes = 1 has every entry form)
 
 VARIABLES defs, maps, sty
 vars == <<defs, maps, sty>>
 
 dev == [h34 |-> Dev_h34, h35 |-> Dev_h35]
-gdev == [g2 |-> Dev_gram, g3 |-> Dev_gram, g4 |-> Dev_gram, g5 |-> Dev_gram, g6 |-> Dev_gram, g7 |-> Dev_gram, f1 |-> Dev_gram]
+\* grammar and font-dictionary switches (CMap!ImplAccepts), TRUE = the defect is in the code.  GramAsIs is the code
+\* as it is: when a fix: commit repairs a class, its switch goes to FALSE here and its entry in known_findings to "fixed".
+\*   g2 C15:grammar.sep.bf   g6 C15:grammar.sep.hdr   g3 C15:grammar.hex-ws   g4 C15:grammar.ff-nul
+\*   g5 C15:grammar.empty-section   g7 C15:grammar.hdr-key   f1 C15:font.enc.base, C15:font.enc.cmapname
+GramAsIs     == [g2 |-> TRUE, g3 |-> TRUE, g4 |-> TRUE, g5 |-> TRUE, g6 |-> TRUE, g7 |-> TRUE, f1 |-> TRUE]
+GramRepaired == [g2 |-> FALSE, g3 |-> FALSE, g4 |-> FALSE, g5 |-> FALSE, g6 |-> FALSE, g7 |-> FALSE, f1 |-> FALSE]
+gdev == Dev_gram
 ASSUME Dev_h35 => Dev_h34             \* a value without a base can only be read from the range start
 ASSUME Lens \subseteq 1..3 /\ NCodes \in 1..8
 
@@ -116,7 +122,7 @@ RefinesExceptKnown ==
           ELSE Got(c) = <<>>
 
 \* ... and a rejected spelling / font dictionary is one of the listed classes
-AcceptsExceptKnown == Accepts \/ StyleClass(sty) \in KnownClasses
+AcceptsExceptKnown == Accepts \/ StyleClassIn(sty, KnownClasses)
 
 \* strict refinement that reports its counter-example (used with the repaired defects seeded back: must be
 \* violated, and the reported classes must be the former findings)
